@@ -5,6 +5,7 @@ total preorder on lists without a `#…` component (`#` is the function's intern
 number": with it `1.5 = 1.# = 1.7` although `1.5 < 1.7`).
 -/
 import Scalibr.Proofs.Semantic.Debian
+import Scalibr.Proofs.Semantic.GoShape
 namespace Scalibr.Semantic
 
 /-- `comparePackagistComponents(ext, ["#"])` — how a version compares with a proper prefix of it -/
@@ -124,10 +125,173 @@ theorem cmpPkS_isSym : IsSym cmpPkS where
       | nil => simp [cmpPkS]
       | cons y ys => simp only [cmpPkS]; rw [swap_then, pkElem_isSym.swap x y, ih ys]
 
+/-! ## the Go-shaped function: every index and slice is in range -/
+
+theorem cmpPkS_zip : ∀ a b : List (List Char), cmpPkS a b =
+    (cmpZip pkElem a b).then (if b.length < a.length then pkExt (a.drop b.length)
+      else if a.length < b.length then (pkExt (b.drop a.length)).swap else .eq) := by
+  intro a
+  induction a with
+  | nil =>
+    intro b
+    cases b with
+    | nil => simp [cmpPkS, cmpZip, pkExt, Ordering.swap, Ordering.then]
+    | cons y ys => simp [cmpPkS, cmpZip, Ordering.then]
+  | cons x xs ih =>
+    intro b
+    cases b with
+    | nil => simp [cmpPkS, cmpZip, Ordering.then]
+    | cons y ys =>
+      simp only [cmpPkS, cmpZip, ih ys, List.length_cons, List.drop_succ_cons, Nat.add_lt_add_iff_right]
+      cases pkElem x y <;> simp [Ordering.then]
+
+theorem eqThen (o : Ordering) : Ordering.eq.then o = o := rfl
+
+theorem goIndex_drop {α : Type} (l : List α) (n : Nat) (x : α) (xs : List α) (h : l.drop n = x :: xs) :
+    goIndex l n = some x := by
+  unfold goIndex
+  have hn : n < l.length := by
+    apply Classical.byContradiction; intro hc
+    rw [List.drop_eq_nil_of_le (Nat.le_of_not_lt hc)] at h; cases h
+  rw [List.getElem?_eq_getElem hn]
+  rw [List.drop_eq_getElem_cons hn] at h
+  injection h with h1 _
+  rw [h1]
+
+/-- the recursive call against `["#"]`: one loop step, then `a[1]` / `a[1:]` behind `len(a) > 1` -/
+theorem cmpPkGo_ext : ∀ (xs : List (List Char)) (x : List Char) (f : Nat), (toBig x).isSome = false → xs.length + 1 ≤ f →
+    cmpPkGo f (x :: xs) [['#']] = some ((cmpSpecial x ['#']).then (pkExt xs)) := by
+  intro xs
+  induction xs with
+  | nil =>
+    intro x f hx hf
+    match f, hf with
+    | f' + 1, _ =>
+      simp only [cmpPkGo, List.length_cons, List.length_nil, Nat.min_self, Nat.zero_add]
+      rw [lexLoop_zip pkElem _ _ 1 0 (by simp)]
+      simp only [List.drop_zero, cmpZip, Option.bind_some, pkElem_hash_right x hx, pkExt, Nat.lt_irrefl, if_false]
+      cases cmpSpecial x ['#'] <;> simp [Ordering.then]
+  | cons x' xs' ih =>
+    intro x f hx hf
+    simp only [List.length_cons] at hf
+    match f, hf with
+    | f' + 1, hf =>
+      simp only [cmpPkGo, List.length_cons, List.length_nil, Nat.zero_add]
+      have hm : min (xs'.length + 1 + 1) 1 = 1 := by omega
+      rw [hm, lexLoop_zip pkElem (x :: x' :: xs') [['#']] 1 0 (by simp)]
+      simp only [List.drop_zero, cmpZip, Option.bind_some, pkElem_hash_right x hx]
+      have h1 : 1 < xs'.length + 1 + 1 := by omega
+      have hs : goSlice (x :: x' :: xs') ((1 : Nat) : Int) ((xs'.length + 1 + 1 : Nat) : Int) = some (x' :: xs') := by
+        have := goSlice_drop (x :: x' :: xs') 1 (by simp)
+        simpa using this
+      have hgi : goIndex (x :: x' :: xs') 1 = some x' := rfl
+      cases hc : cmpSpecial x ['#'] with
+      | lt => simp [Ordering.then]
+      | gt => simp [Ordering.then]
+      | eq =>
+        simp only [eqThen, ne_eq, not_true_eq_false, if_false, h1, if_true, hgi, Option.bind_some, pkExt]
+        by_cases hx' : (toBig x').isSome = true
+        · simp [hx']
+        · have hx'' : (toBig x').isSome = false := by simpa using hx'
+          simp only [hx'', Bool.false_eq_true, if_false]
+          rw [hs, Option.bind_some, ih x' f' hx'' (by omega)]
+
+theorem cmpPkGo_ext' : ∀ (ys : List (List Char)) (y : List Char) (f : Nat), (toBig y).isSome = false → ys.length + 1 ≤ f →
+    cmpPkGo f [['#']] (y :: ys) = some ((cmpSpecial ['#'] y).then (pkExt ys).swap) := by
+  intro ys
+  induction ys with
+  | nil =>
+    intro y f hy hf
+    match f, hf with
+    | f' + 1, _ =>
+      simp only [cmpPkGo, List.length_cons, List.length_nil, Nat.min_self, Nat.zero_add]
+      rw [lexLoop_zip pkElem _ _ 1 0 (by simp)]
+      simp only [List.drop_zero, cmpZip, Option.bind_some, pkElem_hash_left y hy, pkExt, Nat.lt_irrefl, if_false]
+      cases cmpSpecial ['#'] y <;> simp [Ordering.then, Ordering.swap]
+  | cons y' ys' ih =>
+    intro y f hy hf
+    simp only [List.length_cons] at hf
+    match f, hf with
+    | f' + 1, hf =>
+      simp only [cmpPkGo, List.length_cons, List.length_nil, Nat.zero_add]
+      have hm : min 1 (ys'.length + 1 + 1) = 1 := by omega
+      rw [hm, lexLoop_zip pkElem [['#']] (y :: y' :: ys') 1 0 (by simp)]
+      simp only [List.drop_zero, cmpZip, Option.bind_some, pkElem_hash_left y hy]
+      have h1 : 1 < ys'.length + 1 + 1 := by omega
+      have h2 : ¬ (ys'.length + 1 + 1 < 1) := by omega
+      have hgi : goIndex (y :: y' :: ys') 1 = some y' := rfl
+      cases hc : cmpSpecial ['#'] y with
+      | lt => simp [Ordering.then]
+      | gt => simp [Ordering.then]
+      | eq =>
+        simp only [eqThen, ne_eq, not_true_eq_false, if_false, h1, h2, if_true, hgi, Option.bind_some, pkExt]
+        by_cases hy' : (toBig y').isSome = true
+        · simp [hy', Ordering.swap]
+        · have hy'' : (toBig y').isSome = false := by simpa using hy'
+          simp only [hy'', Bool.false_eq_true, if_false]
+          have hs : goSlice (y :: y' :: ys') ((1 : Nat) : Int) ((ys'.length + 1 + 1 : Nat) : Int) = some (y' :: ys') := by
+            have := goSlice_drop (y :: y' :: ys') 1 (by simp)
+            simpa using this
+          rw [hs, Option.bind_some, ih y' f' hy'' (by omega), swap_then, cmpSpecial_isCmp.swap y' ['#']]
+
+/-- `comparePackagistComponents` never indexes or slices out of range, and the fuel is enough -/
+theorem cmpPkGo_eq (a b : List (List Char)) (f : Nat) (hf : a.length + b.length + 2 ≤ f) :
+    cmpPkGo f a b = some (cmpPkS a b) := by
+  match f, hf with
+  | f' + 1, hf =>
+    simp only [cmpPkGo]
+    rw [lexLoop_zip pkElem a b _ 0 (by simp), cmpPkS_zip]
+    simp only [List.drop_zero, Option.bind_some]
+    cases hc : cmpZip pkElem a b with
+    | lt => simp [Ordering.then]
+    | gt => simp [Ordering.then]
+    | eq =>
+      simp only [eqThen, ne_eq, not_true_eq_false, if_false]
+      by_cases h1 : b.length < a.length
+      · simp only [h1, if_true]
+        cases hd : a.drop b.length with
+        | nil =>
+          have := congrArg List.length hd
+          simp at this; omega
+        | cons x xs =>
+          have hl : xs.length + 1 ≤ a.length := by
+            have := congrArg List.length hd
+            simp at this; omega
+          rw [goIndex_drop a b.length x xs hd, Option.bind_some, goSlice_drop a b.length (by omega), hd]
+          simp only [pkExt, Option.bind_some]
+          by_cases hx : (toBig x).isSome = true
+          · simp [hx]
+          · have hx' : (toBig x).isSome = false := by simpa using hx
+            simp only [hx', Bool.false_eq_true, if_false]
+            exact cmpPkGo_ext xs x f' hx' (by omega)
+      · simp only [h1, if_false]
+        by_cases h2 : a.length < b.length
+        · simp only [h2, if_true]
+          cases hd : b.drop a.length with
+          | nil =>
+            have := congrArg List.length hd
+            simp at this; omega
+          | cons y ys =>
+            have hl : ys.length + 1 ≤ b.length := by
+              have := congrArg List.length hd
+              simp at this; omega
+            rw [goIndex_drop b a.length y ys hd, Option.bind_some, goSlice_drop b a.length (by omega), hd]
+            simp only [pkExt, Option.bind_some]
+            by_cases hy : (toBig y).isSome = true
+            · simp [hy, Ordering.swap]
+            · have hy' : (toBig y).isSome = false := by simpa using hy
+              simp only [hy', Bool.false_eq_true, if_false]
+              rw [cmpPkGo_ext' ys y f' hy' (by omega), swap_then, cmpSpecial_isCmp.swap y ['#']]
+        · simp [h2]
+
+@[simp] theorem packagistFam_parse (s : List Char) : packagistFam.parse s = .ok (parsePk s) := rfl
+@[simp] theorem packagistFam_cmp (v w : List (List Char)) : packagistFam.cmp v w = .ord (cmpPkS v w) := by
+  simp [packagistFam, cmpPkGoTop, cmpPkGo_eq v w _ (Nat.le_refl _), CRes.ofGo]
+
 theorem packagist_laws : FamLaws packagistFam (fun _ => True) cmpPkS where
-  parse_nopanic := fun s => by simp [packagistFam]
+  parse_nopanic := fun s => by simp
   parse_wf := fun _ _ _ => trivial
-  cmp_eq := fun v w _ _ => congrArg CRes.ord (cmpPk_eq v w)
+  cmp_eq := fun v w _ _ => packagistFam_cmp v w
   refl := fun v _ => cmpPkS_isSym.refl v
   swap := fun v w _ _ => cmpPkS_isSym.swap v w
 
